@@ -11,7 +11,7 @@ NEEDS_CLI = True
 RULE = ("op td.hash on accepted C08-style documents with exactly one violation injected at a random position (inside nested structs/arrays): "
         "every width 8..256 x the six boundary values (-2^(N-1)-1, -2^(N-1), 2^(N-1)-1, 2^(N-1), 2^N-1, 2^N) x every spelling (JSON int where it fits, "
         "float where exact, decimal string, hex string, +, negative string) for intN and uintN; bytesN lengths N-1, N, N+1; fixed array sizes +-1; declared sizes from 2^31 to beyond 2^64 with short values; "
-        "missing / extra member; undefined type (also where no value reaches it: behind empty arrays, 7 malformed/undefined names x 9 shapes); wrong JSON kind (also for the self-referencing members of recursive types, at depth 0 and deeper); the same classes of violation inside the domain value, each through the library and through hash typeddata / --message-hash / sign typeddata; a random sample of the cases is re-run through every sub-command that reaches the same code (vlib/routes.py); non-trivial = distinct document with an injected boundary value or violation; "
+        "missing / extra member; undefined type (also where no value reaches it: behind empty arrays, 7 malformed/undefined names x 9 shapes); wrong JSON kind (also for the self-referencing members of recursive types, at depth 0 and deeper); the same classes of violation inside the domain value and inside the message of a bare-domain document (primary type EIP712Domain, message different from the domain), each through the library and through hash typeddata / --message-hash / sign typeddata; a random sample of the cases is re-run through every sub-command that reaches the same code (vlib/routes.py); non-trivial = distinct document with an injected boundary value or violation; "
         "judge = executable conformance relation of Spec.Eip712 (exact mathematical value of every literal)")
 EXHAUSTIVE_SWEEPS = {"quick": ["32 widths x 6 boundaries x {uint,int} x spellings", "bytes1..32 x {N-1,N,N+1}"],
                      "thorough": ["32 widths x 6 boundaries x {uint,int} x spellings", "bytes1..32 x {N-1,N,N+1}"]}
@@ -252,6 +252,15 @@ def gen(rng, tier):
     for tag, dom in dom_docs:
         d = {"types": tdgen.types_json({"P": [("a", "string")]}, STD), "primaryType": "P", "domain": dom, "message": {"a": "x"}}
         dcases.append(Case("td.hash " + hx(tdgen.dumps(d)), tags=("domain-violation", tag.split(":")[0]), meta={"token": None}))
+    # … and inside the MESSAGE of a bare-domain document (primary type EIP712Domain: signing the domain itself is a valid
+    # EIP-712 document, and its message is a struct value checked and hashed like any other — it need not equal the domain)
+    for tag, dom in dom_docs:
+        d = {"types": tdgen.types_json({"P": [("a", "string")]}, STD), "primaryType": "EIP712Domain", "domain": dict(good), "message": dom}
+        dcases.append(Case("td.hash " + hx(tdgen.dumps(d)), tags=("domain-violation", "bare-domain-message", tag.split(":")[0]), meta={"token": None}))
+    other = dict(good, name="Another Name", chainId=5, salt="0x" + "22" * 32)
+    for dom, msg in ((good, other), (other, good), (good, good)):
+        d = {"types": tdgen.types_json({"P": [("a", "string")]}, STD), "primaryType": "EIP712Domain", "domain": dict(dom), "message": dict(msg)}
+        dcases.append(Case("td.hash " + hx(tdgen.dumps(d)), tags=("domain-violation", "bare-domain-message", "control"), meta={"token": None}))
     cases += dcases
     from vlib import routes
     cases += routes.add_routes(dcases, rng, 10 ** 6, "quick")
